@@ -6,7 +6,7 @@ from engine import Op, set_mode
 
 PROP = "C04"
 QUICK_BOOST = 2
-LEAN_MODULES = ["IsoDT.Props.C04", "IsoDT.Props.C02q"]
+LEAN_MODULES = ["IsoDT.Props.C04", "IsoDT.Props.C04b", "IsoDT.Props.C02q"]
 RULE = ("ordered pairs at a chosen instant distance (0 .. thousands of years, across year 0) in mixed "
         "representations / offsets / 24:00; non-trivial when a borrow (s, min, h or day) occurs or the "
         "operands differ in representation or offset; distinct by (op, arguments)")
